@@ -699,10 +699,10 @@ example : WellFormedDef [] (sampleDefs.headD default) := by
     rcases ha with rfl | rfl <;> simp [OverrideOK, parentOf, findAttr, sampleDefs]
   · intro as has n hn
     have : as = [{ name := "a", ty := .int, kind := .normal, value := none },
-                 { name := "k", ty := .int, kind := .constant, value := some (.int 7) }] := by
+                 { name := "k", ty := .int, kind := .constant, value := some (.int 7), final := true }] := by
       have h' : defineAttrs (parentOf [] (sampleDefs.headD default)) (sampleDefs.headD default).attrs = .ok
           [{ name := "a", ty := .int, kind := .normal, value := none },
-           { name := "k", ty := .int, kind := .constant, value := some (.int 7) }] := rfl
+           { name := "k", ty := .int, kind := .constant, value := some (.int 7), final := true }] := rfl
       rw [h'] at has; exact (Except.ok.inj has).symm
     subst this
     simp only [sampleDefs, List.headD_cons, EqDecl.toList?, Option.getD_some, List.mem_cons, List.not_mem_nil,
